@@ -203,6 +203,8 @@ def run(rep, programs):
                         ok = offv == 0 and width.get(x[2]) == nbits
                     elif x[0] == "bin" and x[1] == "Shr" and T.canon(x[2]) == ("p", "v"):
                         ok = T.const_val(x[3]) == offv and offv + nbits == 64
+                    elif x[0] == "bin" and x[1] == "Shl" and T.canon(x[2]) == ("p", "v"):
+                        ok = offv == 0 and T.const_val(x[3]) == 64 - nbits
                     elif x[0] == "bin" and x[1] == "BitAnd" and ("p", "v") in (T.canon(x[2]), T.canon(x[3])):
                         ok = lit in (T.const_val(x[2]), T.const_val(x[3]))
                     elif T.canon(x) == ("p", "v"):
